@@ -8,6 +8,28 @@ COMMON_TB = [
 ]
 
 CHECKS = {
+    "C01": {
+        "id": "C01",
+        "engine": "wire",
+        "trusted_base": COMMON_TB + [
+            "modelled, not verified: std::str::from_utf8 (RFC 3629 validity, Utf8.valid; tied by corrupted / random byte strings), Vec / slices as lists, HashMap as the entry list in its iteration order (the order is an input; decoded maps are compared after last-wins deduplication and sorting)",
+            "the protocol glue of the driver and harness (type/value text syntax, canonicalisation of maps)",
+        ],
+        "level_text": "Proved in Lean (dec_enc, by induction over the nesting budget, for the full type algebra incl. strings, dicts and variants whose type is parsed from the signature bytes): for every type, value, byte order, prefix (= every start offset / alignment phase) and suffix, decoding what enc produced returns the same value and consumes exactly the produced bytes; the same for whole bodies (list of parameters) and for raw validation; what follows the value is irrelevant. The model is tied to the code by marshalling every type of a 326-type catalogue (all 2- and 3-deep combinations of array/dict/struct/variant over leaves of each alignment class, all basic types) x generated values x {LE,BE} x 8 offsets through the typed API and comparing bytes, decoded value and consumed length of typed unmarshal, Param unmarshal and validate_raw with the model, plus random Param trees; the round trip itself (decoded == original, consumed == produced, following value intact, body signature) is checked directly on the implementation for every case.",
+        "level_note": "Theorems are about the Lean model (enc/dec); the tie is differential over the catalogue and random trees (bounded depth / sizes). Floats are their 64-bit patterns throughout; maps are compared as unordered maps.",
+        "assumptions": ["values nest at most 64 container levels and arrays stay below 64 MiB (the protocol's limits, hypotheses of the theorems)"],
+    },
+    "C03": {
+        "id": "C03",
+        "engine": "wire",
+        "trusted_base": COMMON_TB + [
+            "modelled, not verified: std::str::from_utf8 (RFC 3629 validity, Utf8.valid; tied by corrupted / random byte strings), Vec / slices as lists, HashMap as the entry list in its iteration order (the order is an input; decoded maps are compared after last-wins deduplication and sorting)",
+            "the protocol glue of the driver and harness (type/value text syntax, canonicalisation of maps)",
+        ],
+        "level_text": "Proved in Lean for ARBITRARY byte strings: validate returns n iff the n bytes at the offset lie inside the buffer and are the encoding (C02's enc, at that offset and byte order) of some value of the signature nested at most 64 deep (validate_iff: exact accept set and exact byte count); unmarshal returns (v, off+n) iff validate returns n, the bytes are the encoding of v and all descriptor indices are below the attached count (unmarshal_iff); the encoding is injective so the returned value is the one the bytes denote; every accepted value occupies at least one byte. Tied to the three Rust decoders (validate_raw, Param unmarshal, typed unmarshal) on valid encodings, every single-byte corruption (+1, ^0x80, :=0, :=0xFF, truncation) of pooled encodings up to 96 bytes, the other byte order, and random byte strings under random signatures; agreement of the three decoders among themselves is checked directly.",
+        "level_note": "Theorems are about one decoder model `dec`; that all three Rust decoders behave like it is differential (all single faults of small messages, random bytes). Typed decoders of statically nested Rust types do not count struct/array levels towards the 64 limit (only variants do): inputs nested deeper than 64 that only the typed API accepts are outside the catalogue's reach and are not claimed.",
+        "assumptions": ["error kinds are collapsed to accept/reject", "the typed API is exercised for the catalogue types only"],
+    },
     "C13": {
         "id": "C13",
         "engine": "conn",
@@ -58,6 +80,8 @@ ENGINES = [
      "kind_free_text": "Lean 4 model (Model/), lemmas (Lemmas/), property theorems (Props/Cxx.lean), native driver modeld (Driver/)"},
     {"name": "lang", "path": "harness/src", "serves_properties": [p for p in sorted(CHECKS.keys()) if CHECKS[p].get("engine") == "lang"],
      "kind_free_text": "Rust harness: exhaustive enumeration of short strings / all characters through the validators and parsers"},
+    {"name": "wire", "path": "harness/vcore/src/eng_wire.rs", "serves_properties": [p for p in sorted(CHECKS.keys()) if CHECKS[p].get("engine") == "wire"],
+     "kind_free_text": "Rust harness: typed catalogue (326 monomorphised types), random Param trees, corruption stream; model ops w.enc / w.dec / w.body"},
     {"name": "conn", "path": "harness/src", "serves_properties": [p for p in sorted(CHECKS.keys()) if CHECKS[p].get("engine") == "conn"],
      "kind_free_text": "Rust harness: real DuplexConn connected through the real auth code to an in-process scripted peer"},
 ]
